@@ -863,7 +863,9 @@ func AppendDoc(b []byte, text string, indent, right int, ansi bool, firstIndent 
 			b = append(b, c)
 			col++
 		}
-		if right < col && 0 < lastSpace {
+		// A line is broken when a character does not fit, not by the blank
+		// or line break that ends a line which just fits.
+		if right < col && 0 < lastSpace && c != ' ' && c != '\n' {
 			if lastSpace < len(b) {
 				// Append indent to the end just as a way to expand b.
 				b = append(b, indentSpaces[:indent]...)
